@@ -1731,7 +1731,15 @@ RULES["optimization_barrier"] = lambda ctx, eqn, *xs: list(xs)
 # ----------------------------------------------------------------------------------------------
 
 def literal_arr(lit):
-    return const_arr(np.asarray(lit.val), kind_of_dtype(lit.aval.dtype))
+    kind = kind_of_dtype(lit.aval.dtype)
+    val = lit.val
+    if kind == "f":
+        # weak-typed Python floats are rounded to the aval's dtype by XLA: the literal's VALUE is the rounded one
+        try:
+            val = np.asarray(val).astype(np.dtype(lit.aval.dtype))
+        except Exception:
+            val = np.asarray(val)
+    return const_arr(np.asarray(val), kind)
 
 
 def eval_jaxpr(ctx, jaxpr, consts, args):
@@ -1805,3 +1813,20 @@ def _empty(ctx, eqn):
     # jnp.empty: arbitrary (unspecified) contents
     shp = out_shape(ctx, eqn)
     return [fresh_input(ctx.fresh("empty"), shp, out_kind(eqn), eqn.outvars[0].aval.dtype)]
+
+
+@rule("stack")
+def _stack(ctx, eqn, *xs):
+    ax = eqn.params.get("axis", 0)
+    shp = out_shape(ctx, eqn)
+
+    def fn(idx):
+        i = idx[ax]
+        sub = tuple(idx[:ax]) + tuple(idx[ax + 1:])
+        if is_const(i):
+            return xs[i].at(sub)
+        out = xs[-1].at(sub)
+        for j in range(len(xs) - 2, -1, -1):
+            out = site(seq(i, j), xs[j].at(sub), out)
+        return out
+    return [SArr(shp, xs[0].kind, fn, xs[0].dtype)]
